@@ -582,7 +582,7 @@ func init() {
 			return cs
 		},
 		func(e *vh.Env, c c01H2, o *vh.Out) {
-			o.Need("h2_exchanges_compared")
+			o.Need("h2_exchanges_compared", "h2_req_trailers_seen")
 			bes := newBackends(2)
 			defer closeBackends(bes)
 			cfg := baseConfig(c.Strategy, bes)
@@ -603,8 +603,8 @@ func init() {
 			cname := fmt.Sprintf("tls+h2 %s chain=%q ids=%v", c.Strategy, c.Chain, c.IDs)
 			all := c01Exchanges(e, c01Cfg{Strategy: c.Strategy, Chain: c.Chain, IDs: c.IDs, Batch: 99})
 			for xi, x := range all {
-				if x.Stream || len(x.Script.Interim) > 0 || len(x.Req.Trailers) > 0 || x.Req.Method == "PURGE" && false {
-					continue // streaming timing, 1xx and request trailers are decided by the raw-socket part
+				if x.Stream || len(x.Script.Interim) > 0 {
+					continue // streaming timing and 1xx are decided by the raw-socket part
 				}
 				if xi%3 != 0 && xi > 120 {
 					continue
@@ -627,6 +627,19 @@ func init() {
 						return nil, nil, err
 					}
 					req.Host = "example.test"
+					if len(x.Req.Trailers) > 0 && body != nil {
+						// announced before the exchange, filled in when the body has been read
+						req.Trailer = http.Header{}
+						for _, t := range x.Req.Trailers {
+							req.Trailer[http.CanonicalHeaderKey(t[0])] = nil
+						}
+						req.Body = &trailerAtEOF{r: body, fill: func() {
+							for _, t := range x.Req.Trailers {
+								req.Trailer.Add(t[0], t[1])
+							}
+						}}
+						req.ContentLength = -1
+					}
 					for _, h := range x.Req.Headers {
 						if strings.EqualFold(h[0], "Connection") || strings.EqualFold(h[0], "X-Hop") {
 							continue // connection-specific fields are not allowed in HTTP/2
@@ -687,6 +700,12 @@ func init() {
 				if pa.BodyLen != da.BodyLen || pa.BodyHash != da.BodyHash {
 					viol("request-body", fmt.Sprintf("request body %d -> %d bytes", da.BodyLen, pa.BodyLen))
 				}
+				if len(da.Trailer) > 0 || len(pa.Trailer) > 0 {
+					if d := diffMulti(lowerMulti(headerToPairs(da.Trailer), nil), lowerMulti(headerToPairs(pa.Trailer), nil)); d != "" {
+						viol("req-trailers", "request trailers: "+d)
+					}
+					o.Obs("h2_req_trailers_seen", 1)
+				}
 				drop := map[string]bool{"x-forwarded-for": true, "content-length": true, "user-agent": false, "accept-encoding": false, strings.ToLower(vh.XIDHeader): true}
 				if c.IDs {
 					for _, k := range []string{"x-request-id", "x-trace-id"} {
@@ -725,6 +744,23 @@ func init() {
 			}
 		})
 }
+
+// trailerAtEOF fills in the request's trailer values when the body has been read to its end.
+type trailerAtEOF struct {
+	r    io.Reader
+	fill func()
+	done bool
+}
+
+func (t *trailerAtEOF) Read(p []byte) (int, error) {
+	n, err := t.r.Read(p)
+	if err == io.EOF && !t.done {
+		t.done = true
+		t.fill()
+	}
+	return n, err
+}
+func (t *trailerAtEOF) Close() error { return nil }
 
 type unknownLenBytes struct{ r *bytes.Reader }
 
